@@ -119,6 +119,8 @@ def C02(ctx):
     d_il = G.c02_r4(ctx, f)
     E.c02_r2(soft_if(ctx, d_il, "C02.R4"), f)
     x("c02_r3", soft_if(ctx, d_il, "C02.R4"), f)
+    # the interleaved sequence reaches the placement unaltered: every codeword as computed, zero remainder bits, 8*codewords+remainder
+    G.c01_r6(ctx, f)
     return dict(
         level="other",
         explanation="Exhaustive table obligations (every cell of the block-layout, data-codeword, total-codeword, remainder-bit and generator tables against values derived from ISO Table 9), buffer sizes from signatures, and the complete output of polynomials::structure for all 160 cells by partial evaluation with symbolic data codewords: data blocks interleaved in ISO order, then each block's own EC codewords (remainder cells of its own division) interleaved, zero after. All-zero syndromes: each block's EC codewords are the remainder of block(x).x^ec by the generator for EVERY block content (C07.R4: the division evaluated with the block bytes as free symbols over GF(2^8)-linear forms, all 13 degrees and every block length in use; field tables and generators exact by C07.T1/T2). Not decided: the corruption corollary (a textbook consequence of zero syndromes and the generator degree, not mechanised).",
